@@ -98,6 +98,8 @@ def check(ctx):
         ctx.undecided('SIB', 'unpack_sections / unpack_lots agree on the range skeleton', 'one skeleton not recognised')
     ctx.attempt(_routes)
     ctx.attempt(every_match_registers, rule='TBL')
+    from .c08 import twprge_negatives        # a section list must reach the section unpacker, not a Twp/Rge scrubber
+    ctx.attempt(twprge_negatives)
     ctx.attempt(common.dedup_idioms, [f for f in ctx.repo.funcs.values() if f.module.name.endswith(
         ('plssdesc.plss_parse', 'unpack.unpackers', 'tract.tract_parse'))])
     ctx.attempt(_sibling_through)
